@@ -27,7 +27,7 @@ def _vec(fname, kind):
 
 
 def extra_builds(tier):
-    return [("relchk", None), ("sse41", _vec), ("avx", _vec), ("native", _vec), ("fe32", None)]
+    return [("relchk", None), ("sse41", _vec), ("avx", _vec), ("native", _vec), ("fe32", lambda f, a: f != "shard_huge")]
 
 
 
